@@ -15,7 +15,7 @@ def configs(ctx):
         specs = specs + fam.small_dag_specs(4)
     cfgs = [Config(s, h, w, (), batch) for s in specs for (h, w) in shapes]
     cfgs = fam.quick_filter(cfgs) if ctx.quick else cfgs
-    return cfgs + fam.gpu_configs(batch)
+    return cfgs + fam.gpu_configs(batch) + fam.wide_configs(ctx.quick)
 
 
 def _worker_case(arg):
